@@ -417,6 +417,10 @@ class Check(PropertyCheck):
                             for spell in ("cap", "upper"):
                                 yield {"op": "replay", "auth": True, "run": run, "rec": rec, "scheme": scheme, "host": host, "spell": spell}
         while True:
+            if rng.chance(0.05):
+                alpha = ["u", ":", "\n", "p", "é", "€", "𝄞", " ", "\r", "\x00", "a:b"]
+                yield {"op": "upval", "text": "".join(rng.pick(alpha) for _ in range(rng.randint(0, 6)))}
+                continue
             if rng.chance(0.04):
                 yield {"op": "replay", "auth": rng.chance(0.9), "run": rng.pick(list(MODES)), "rec": rng.pick(list(MODES)),
                        "scheme": "http", "host": rng.pick(["origin", "target"]), "spell": rng.pick([None, "cap", "upper"])}
@@ -490,6 +494,10 @@ class Check(PropertyCheck):
         return ws
 
     def impl(self, case):
+        if case.get("op") == "upval":
+            try: return {"unit": "ok " + hx(upstream_auth.parse_upstream_auth(case["text"]))}
+            except Exception as e:
+                return {"unit": "err"} if type(e).__name__ == "OptionsError" else {"unit": "exc:" + type(e).__name__}
         # the flows run through the REAL default addon chain, in the order mitmproxy.addons.default_addons() gives it
         chain, by = default_chain()
         ua, pa0, mr, sl = by["UpstreamAuth"], by["ProxyAuth"], by["MapRemote"], by["ScriptLoader"]
@@ -559,6 +567,7 @@ class Check(PropertyCheck):
 
     # ------------------------------------------------------------------ property oracle (needs no model)
     def oracle(self, case, obs):
+        if case.get("op") == "upval": return []
         if obs["errors"] and case.get("op") != "replay": return [f"layer raised: {obs['errors'][0]}"]
         fails = []
         if case.get("op") == "replay":
@@ -648,6 +657,8 @@ class Check(PropertyCheck):
         return False
 
     def model_lines(self, case):
+        if case.get("op") == "upval":
+            return ["upval " + (".".join("%x" % ord(c) for c in case["text"]) or "-")]
         if case.get("op") == "replay": return None     # oracle only (the replay handler is outside both models)
         if case.get("pauth") == "bad": return None     # ProxyAuth refuses everything: oracle only (nothing may be written)
         modes_ = ",".join(c["mode"] for c in case["conns"])
@@ -657,6 +668,7 @@ class Check(PropertyCheck):
         return [f"runv {a} {modes_} {self.run_events(case)}", f"routev {a} {modes_} {self.route_events(case)}"]
 
     def model_obs(self, case, replies):
+        if case.get("op") == "upval": return replies[0]
         if len(replies) == 1: return {"run": "-", "route": replies[0]}
         return {"run": replies[0], "route": replies[1]}
 
@@ -681,6 +693,7 @@ class Check(PropertyCheck):
         return f"?{st['k']}:{sts}:{o['closed']}" + body
 
     def impl_view(self, case, obs):
+        if case.get("op") == "upval": return obs["unit"]
         pairs = [(st, o) for st, o in zip(case["steps"], obs["steps"]) if st["k"] != "opt"]
         toks = [self.step_token(case, st, o) for st, o in pairs]
         # the routing model additionally predicts the connection that carried the request: address, tls, sni, via, reuse
@@ -694,11 +707,13 @@ class Check(PropertyCheck):
         return {"run": run, "route": " ".join(rtoks)}
 
     def classify(self, case, obs):
+        if case.get("op") == "upval": return json.dumps(case, sort_keys=True)
         if case.get("op") == "replay": return json.dumps(case, sort_keys=True)
         if not any(o["writes"] for o in obs["steps"]): return None
         return json.dumps(case, sort_keys=True)
 
     def branches(self, case, obs):
+        if case.get("op") == "upval": return ["upval:" + obs["unit"][:3]]
         out = ["auth" if case["auth"] else "noauth"] + ["opt:" + k for k in (case.get("opts") or {})]
         if case.get("op") == "replay":
             ws = obs["steps"][0]["writes"]
@@ -720,7 +735,7 @@ class Check(PropertyCheck):
         return out
 
     def neighbours(self, case, rng):
-        if case.get("op") == "replay": return
+        if case.get("op") in ("replay", "upval"): return
         for i in range(len(case["steps"])):
             for k in self.STEPS:
                 c = json.loads(json.dumps(case)); c["steps"][i]["k"] = k
